@@ -49,6 +49,17 @@ def request_key_var(ctx, fn, name):
     return None
 
 
+_KV_RD = {}
+
+
+def _kv_rd(fn, g):
+    from tfsa.reach import ReachDefs
+    if fn not in _KV_RD:
+        _KV_RD.clear()
+        _KV_RD[fn] = ReachDefs(fn, g)
+    return _KV_RD[fn]
+
+
 def run(ctx):
     ctx.trust("pyben.load returns fresh dictionaries; decode->encode is the identity on untouched parts")
     ctx.trust("argparse semantics: store -> None when absent, store_true -> False unless default given")
@@ -241,9 +252,13 @@ def run(ctx):
                     reads.append(x.args[0])
                 elif isinstance(x, ast.Subscript) and isinstance(x.value, ast.Name) and x.value.id in request_params:
                     reads.append(x.slice)
-                elif isinstance(x, ast.Name) and x.id not in seen_n and x.id not in request_params:
-                    seen_n.add(x.id)
-                    work += [p_ for w_, p_ in ctx.res.bindings(edit).get(x.id, []) if w_ == "value"]
+                elif isinstance(x, ast.Name) and isinstance(x.ctx, ast.Load) and (x.id, id(C.stmt_node(ctx, edit, x))) not in seen_n and x.id not in request_params:
+                    # the definitions of the local that reach this use (a variable re-used for another field earlier in
+                    # the function does not count)
+                    un = C.stmt_node(ctx, edit, x)
+                    seen_n.add((x.id, id(un)))
+                    if un is not None:
+                        work += [d.value for d in _kv_rd(edit, g).reaching(x.id, un) if d.kind in ("assign", "aug") and isinstance(d.value, ast.AST)]
         same = bool(reads) and all(isinstance(r, ast.Name) and r.id == kv for r in reads)
         if same:
             ctx.holds("C07.2", edit, "store under key variable %r is guarded by `%s in args` and its value derives from args[%s] only" % (kv, kv, kv), ins.node)
